@@ -385,8 +385,8 @@ def run(ctx):
         "order of rooms and cells",
     ]
     quick = ctx.quick()
-    n = 120 if quick else 5000
-    k = 14 if quick else 16
+    n = 200 if quick else 5000
+    k = 28 if quick else 16
     jobs = []
     for i in range(k):
         cod = [CODECS[i % len(CODECS)]] if quick else CODECS
